@@ -38,7 +38,9 @@ REQUIRED = ["KV.C07.count_block_indep", "KV.C07.lmplz_indep", "KV.C07.lmplz_inde
             "KV.C07.single_chain_stages", "KV.C07.lmplz_indep_final2",
             "KV.C07.addRight_stream", "KV.C07.adder_prefix_monotone", "KV.C07.adder_fanin_delivers",
             "KV.C07.mergeRight_two_chains", "KV.C07.countsOfCounts_perm", "KV.C07.discounts_barrier_indep",
-            "KV.C07.fanin_delivers", "KV.C07.barrier_indep", "KV.C07.lmplz_indep_final3"]
+            "KV.C07.fanin_delivers", "KV.C07.barrier_indep", "KV.C07.lmplz_indep_final3",
+            "KV.C07.sort_read_twice_same", "KV.C07.step3_order_delivers", "KV.C07.step3_delivers",
+            "KV.C07.lmplz_indep_final4"]
 
 OKISH = ("ok", "config")
 
